@@ -133,7 +133,7 @@ static void run_actions(Tst *t, int phase) {
             free(x); free(y);
         }
         else if (!strcmp(k, "failmsg")) {
-            unsigned char *x = unhex(a->arg[0]);
+            unsigned char *x = unhex(a->arg[0] ? a->arg[0] : "");
             (*r->assert_true)(r, "scn.c", a->line, 0, "%s", (const char *)x);
             free(x);
         }
